@@ -224,6 +224,9 @@ pub struct Watch {
     pub trace: Option<Vec<(String, Vec<Ev>)>>,
     /// when set: the concrete calls made (C09 re-chunking)
     pub calls: Option<Vec<WCall>>,
+    /// C09: after adversarial input keep feeding although a close was requested
+    /// ("framing resumes at the next byte" can only be observed that way)
+    pub read_past_close: bool,
 }
 
 /// A concrete call on the connection object (lowest-level, fully determined script).
@@ -309,11 +312,17 @@ impl Watch {
             pending_intended: None,
             trace: None,
             calls: None,
+            read_past_close: false,
         }
     }
 
     pub fn failed(&self) -> bool {
         self.viol.is_some()
+    }
+
+    /// the application has stopped reading from the transport
+    pub fn stopped_reading(&self) -> bool {
+        self.want_close && !(self.read_past_close && self.lenient)
     }
 
     pub fn write_failed(&mut self) {
